@@ -344,6 +344,9 @@ def check(col: Collector, tier: str):
     check_default_types_not_reapplied(col, "C10.R3", repo)
     # ------------------------------------------------------------ R7 tree type (shared with C03)
     from sa.props._tr import import_obligations
+    import_obligations(col, "C10.R8", "c07", lambda o: o.rule == "C07.R4",
+                       "declarations of a query that was refused (or transformed and never written) must not stay in the type tables: an undeclared "
+                       "method of a later query would silently take the earlier query's type instead of the warned-about double")
     import_obligations(col, "C10.R8", "c07", lambda o: o.rule == "C07.R5" and ("store-into" in o.detail or "merge-into" in o.detail or o.detail == "registries-not-imported-by-value"),
                        "a declared type that is written into a table shared with the built-in defaults is honoured for the wrong queries")
     from sa.props.c03 import check_tree_type
